@@ -241,6 +241,84 @@ def _is_private_helper(fn: FuncInfo, caller: FuncInfo) -> bool:
     return fn.cls.is_subclass_of(caller.cls) or caller.cls.is_subclass_of(fn.cls)
 
 
+def desugar_match(st: ast.Match):
+    """match <subject>: case <literal | a | b | (p, q) | _ | name> [if guard]: ...  as the if/elif chain it
+    abbreviates (the subject is a name, an attribute chain or a tuple display of such: evaluated without effects).
+    None for patterns outside this subset (class, mapping and star patterns)."""
+    subj = st.subject
+
+    def simple(e) -> bool:
+        return isinstance(e, (ast.Name, ast.Constant)) or (isinstance(e, ast.Attribute) and simple(e.value)) or \
+            (isinstance(e, ast.Subscript) and simple(e.value) and isinstance(e.slice, ast.Constant))
+    if not (simple(subj) or (isinstance(subj, ast.Tuple) and all(simple(x) for x in subj.elts))):
+        return None
+
+    def cond(pat, expr):
+        """(test expression or None for 'always', [(name, expr)] bindings) or False when unsupported."""
+        if isinstance(pat, ast.MatchValue):
+            return ast.Compare(left=expr, ops=[ast.Eq()], comparators=[pat.value]), []
+        if isinstance(pat, ast.MatchSingleton):
+            return ast.Compare(left=expr, ops=[ast.Is()], comparators=[ast.Constant(value=pat.value)]), []
+        if isinstance(pat, ast.MatchAs):
+            if pat.pattern is None:
+                return None, ([(pat.name, expr)] if pat.name else [])
+            r = cond(pat.pattern, expr)
+            if r is False:
+                return False
+            return r[0], r[1] + ([(pat.name, expr)] if pat.name else [])
+        if isinstance(pat, ast.MatchOr):
+            tests = []
+            for q in pat.patterns:
+                r = cond(q, expr)
+                if r is False or r[1]:
+                    return False
+                if r[0] is None:
+                    return None, []
+                tests.append(r[0])
+            return ast.BoolOp(op=ast.Or(), values=tests), []
+        if isinstance(pat, ast.MatchSequence) and isinstance(expr, ast.Tuple) and len(pat.patterns) == len(expr.elts) \
+                and not any(isinstance(q, ast.MatchStar) for q in pat.patterns):
+            tests, binds = [], []
+            for q, x in zip(pat.patterns, expr.elts):
+                r = cond(q, x)
+                if r is False:
+                    return False
+                if r[0] is not None:
+                    tests.append(r[0])
+                binds += r[1]
+            if not tests:
+                return None, binds
+            return (tests[0] if len(tests) == 1 else ast.BoolOp(op=ast.And(), values=tests)), binds
+        return False
+    chain = None
+    tail = None
+    for case in st.cases:
+        r = cond(case.pattern, subj)
+        if r is False:
+            return None
+        test, binds = r
+        body = [ast.Assign(targets=[ast.Name(id=n, ctx=ast.Store())], value=x) for n, x in binds] + list(case.body)
+        if case.guard is not None:
+            if binds:
+                return None         # a guard that reads the captures: not in the subset
+            test = case.guard if test is None else ast.BoolOp(op=ast.And(), values=[test, case.guard])
+        if test is None:
+            node = body             # irrefutable case: the else branch
+        else:
+            node = [ast.If(test=test, body=body, orelse=[])]
+        if chain is None:
+            chain = node
+        else:
+            tail.orelse = node
+        if test is None:
+            break
+        tail = node[0]
+    for n in (chain or []):
+        ast.copy_location(n, st)
+        ast.fix_missing_locations(n)
+    return chain or []
+
+
 class LambdaVal:
     __slots__ = ('node', 'env', 'func')
 
@@ -482,6 +560,10 @@ class Explorer:
         if isinstance(st, (ast.FunctionDef, ast.AsyncFunctionDef, ast.ClassDef)):
             s.env[st.name] = atomv(('localdef', st.name, st.lineno))
             return [(s, None)]
+        if isinstance(st, ast.Match):
+            chain = desugar_match(st)
+            if chain is not None:
+                return self.run_block(chain, [s])
         raise AnalysisError(f'{f.loc(st)}: statement {type(st).__name__} is outside the modelled subset')
 
     def run_while(self, st: ast.While, s: State):
